@@ -481,13 +481,14 @@ Fixpoint chain_keys (fuel : nat) (t : tbl) (e : option N) : list N :=
   | _, _ => []
   end.
 
-Fixpoint layout (t : tbl) (i : nat) : list (N * list N) :=
+(* buckets i-1 .. 0, each non-empty one put in front of acc: ascending bucket order *)
+Fixpoint layout (fuel : nat) (t : tbl) (i : nat) (acc : list (N * list N)) : list (N * list N) :=
   match i with
-  | O => []
+  | O => acc
   | S j =>
       match tget t (N.of_nat j) with
-      | Some x => layout t j ++ [(N.of_nat j, chain_keys (fuel_of t) t (Some x))]
-      | None => layout t j
+      | Some x => layout fuel t j ((N.of_nat j, chain_keys fuel t (Some x)) :: acc)
+      | None => layout fuel t j acc
       end
   end.
 
@@ -498,7 +499,7 @@ Record detail := mkDetail {
 
 Definition detail_of (full : bool) (o : sop) (t : tbl) : detail :=
   mkDetail (tlen t) (match dflt t with Some _ => true | None => false end)
-           (if full || is_enum o then Some (layout t (N.to_nat (tlen t))) else None).
+           (if full || is_enum o then Some (layout (fuel_of t) t (N.to_nat (tlen t)) []) else None).
 
 Fixpoint detail_from (full : bool) (s : state) (ops : list op) : list detail :=
   match ops with
